@@ -1272,8 +1272,12 @@ def call_method(ev, recv, name, args, kwargs, node):
         t = args[0] if args else kwargs.get("dtype")
         if isinstance(t, ExtV) and t.dotted.split(".")[-1] in ("float", "float64", "double", "longdouble"):
             kind = "float"
-        elif isinstance(t, ExtV) and t.dotted.split(".")[-1] in ("int", "int64", "intp", "bool", "int32", "int_", "longlong", "bool_"):
+        elif isinstance(t, ExtV) and t.dotted.split(".")[-1] in ("int", "int64", "intp", "bool", "int_", "longlong", "bool_"):
             kind = "int"
+        elif isinstance(t, ExtV) and t.dotted.split(".")[-1] in ("int32", "int16", "int8", "uint8", "uint16", "uint32", "intc", "short"):
+            # a cast to a fixed narrow integer width wraps around silently (counts of 2**31 and more): kept visible for the buffer-width rules
+            kind = "narrowint"
+            ev.event("narrow_cast", node=node, value=v, to=t.dotted.split(".")[-1])
         else:
             kind = "other"
         if kind == "int" and storage_root(v) is None:
